@@ -475,9 +475,12 @@ def validate_rewrite(cls_name, fields, atoms, result):
                 if cn != "BooleanLiteral":
                     return f"boolean guard compares with {cn}"
                 fixed[f] = bool(v)
+        operands_same = any({a, b} == {"left", "right"} for a, b in same)
         for L, R in itertools.product((False, True), repeat=2):
             if fixed.get("left", L) != L or fixed.get("right", R) != R:
                 continue
+            if operands_same and L != R:
+                continue  # structurally equal operands have the same value
             orig = BOOL[cls_name](L, R)
             if result[0] == "OPT" and result[1] in ("left", "right"):
                 res = L if result[1] == "left" else R
@@ -501,6 +504,11 @@ def validate_rewrite(cls_name, fields, atoms, result):
         if bool(result[2]) != REFLEXIVE[cls_name]:
             return f"{cls_name}(x, x) rewritten to {result[2]}, the order axioms give {REFLEXIVE[cls_name]}"
         return None
+    if cls_name in ("Max", "Min"):
+        # max(x, x) = min(x, x) = x (also for NaN: both operands are the same NaN)
+        if any({a, b} == {"left", "right"} for a, b in same) and result[0] == "OPT" and result[1] in ("left", "right"):
+            return None
+        return f"{cls_name} rewritten to {result} under guard {fmt_guard(atoms)}: not interpretable (no semantic table for this rewrite of {cls_name})"
     if cls_name == "BooleanToInteger":
         if "expression" not in subst or subst["expression"][0] != "BooleanLiteral":
             return f"cast rewritten under guard {fmt_guard(atoms)}"
@@ -522,6 +530,8 @@ def validate_rewrite(cls_name, fields, atoms, result):
             return f"if ({subst['condition'][1]}) rewritten to {result}, small-step semantics give {want}"
         if is_empty_block("if_true") and is_empty_block("if_false") and result == ("EMPTYBLOCK",):
             return None
+        if any({a, b} == {"if_true", "if_false"} for a, b in same) and result[0] == "OPT" and result[1] in ("if_true", "if_false"):
+            return None  # both arms are the same statement; evaluating a condition has no effect on the state
         return f"Branch rewritten to {result} under guard {fmt_guard(atoms)}"
     if cls_name == "Loop":
         if "condition" in subst and subst["condition"] == ("BooleanLiteral", False) and result == ("EMPTYBLOCK",):
@@ -533,7 +543,7 @@ def validate_rewrite(cls_name, fields, atoms, result):
         if any({a, b} == {"target", "value"} for a, b in same) and result == ("EMPTYBLOCK",):
             return None
         return f"Assignment rewritten to {result} under guard {fmt_guard(atoms)}"
-    return f"no semantic table for rewrites of {cls_name} (result {result}, guard {fmt_guard(atoms)})"
+    return f"not interpretable: no semantic table for rewrites of {cls_name} (result {result}, guard {fmt_guard(atoms)})"
 
 
 def fmt_guard(atoms):
@@ -657,7 +667,12 @@ def run(ctx):
     if len(paths) == 1 and paths[0][1] == ("REPLACE", ("SELF",), (("body", ("OPT", "body", "peephole_statement")),)):
         ctx.ok("C07.wiring", "ir/_peephole.py:peephole_function_definition")
     else:
-        ctx.fail("C07.wiring", "ir/_peephole.py:peephole_function_definition", f"not `replace(self, body=peephole_statement(self.body))`: {paths}")
+        opaque = "'?'" in repr([p_[1] for p_ in paths])
+        ctx.fail(
+            "C07.wiring",
+            "ir/_peephole.py:peephole_function_definition",
+            ("driver not interpretable (calls a helper the rule does not model): " if opaque else "") + f"not `replace(self, body=peephole_statement(self.body))`: {paths}",
+        )
     pm = ix.func(f"{MOD}.peephole").node
     r.instances += 1
     ok = False
